@@ -6,6 +6,7 @@
 package ecdh
 
 import (
+	"bytes"
 	goecdh "crypto/ecdh"
 	"crypto/ecdsa"
 	"crypto/elliptic"
@@ -111,14 +112,23 @@ func keyToPublic(pk key.Key) (*goecdh.PublicKey, error) {
 		if err != nil {
 			return nil, err
 		}
-		compressed := make([]byte, 1+len(x))
+		// SEC1 compressed point: the x coordinate left-padded to the curve size
+		size := getKeySize(curve)
+		x = bytes.TrimLeft(x, "\x00")
+		if len(x) > size {
+			return nil, fmt.Errorf("cose/key/ecdh: keyToPublic: invalid parameter x")
+		}
+		compressed := make([]byte, 1+size)
 		if boolY {
 			compressed[0] = 0x03
 		} else {
 			compressed[0] = 0x02
 		}
-		copy(compressed[1:], x)
+		copy(compressed[1+size-len(x):], x)
 		ix, iy = elliptic.UnmarshalCompressed(ecdsaCurve, compressed)
+		if ix == nil {
+			return nil, fmt.Errorf("cose/key/ecdh: keyToPublic: (x, y) not on the curve")
+		}
 	}
 	k := ecdsa.PublicKey{Curve: ecdsaCurve, X: ix, Y: iy}
 	return k.ECDH()
@@ -142,13 +152,15 @@ func KeyFromPublic(pk *goecdh.PublicKey) (key.Key, error) {
 		return nil, fmt.Errorf("cose/key/ecdh: KeyFromPublic: unsupported curve %v", curve)
 	}
 
-	x, y := elliptic.Unmarshal(ecdsaCurve, data)
+	// data is the uncompressed SEC1 form 0x04 || X || Y with fixed-length coordinates,
+	// which RFC 9053 section 7.1.1 requires to be kept (leading zero octets preserved).
+	size := getKeySize(curve)
 	return map[any]any{
 		iana.KeyParameterKty:    iana.KeyTypeEC2,
 		iana.KeyParameterKid:    key.SumKid(data), // default kid, can be set to other value.
 		iana.EC2KeyParameterCrv: crv,              // REQUIRED
-		iana.EC2KeyParameterX:   x.Bytes(),        // REQUIRED
-		iana.EC2KeyParameterY:   y.Bytes(),        // REQUIRED
+		iana.EC2KeyParameterX:   data[1 : 1+size], // REQUIRED
+		iana.EC2KeyParameterY:   data[1+size:],    // REQUIRED
 	}, nil
 }
 
@@ -301,10 +313,10 @@ func ToPublicKey(k key.Key) (key.Key, error) {
 		return nk, nil
 	}
 
-	ecdsaCurve, _ := getECDSACurve(curve)
-	x, y := elliptic.Unmarshal(ecdsaCurve, data)
-	nk[iana.EC2KeyParameterX] = x.Bytes()
-	nk[iana.EC2KeyParameterY] = y.Bytes()
+	// data is 0x04 || X || Y with fixed-length coordinates (RFC 9053 section 7.1.1)
+	size := getKeySize(curve)
+	nk[iana.EC2KeyParameterX] = data[1 : 1+size]
+	nk[iana.EC2KeyParameterY] = data[1+size:]
 	return nk, nil
 }
 
